@@ -1308,6 +1308,40 @@ func (r *run) eval(s *State, e ast.Expr) Val {
 		if n, ok := t.(*types.Named); ok && (n.Obj().Name() == "savepoint" || n.Obj().Name() == "position") {
 			s.undecided("composite literal of type %s", n.Obj().Name())
 		}
+		// a helper struct that carries tracked values (a savepoint and a state clone kept together): field by field
+		if n, ok := t.(*types.Named); ok {
+			if st, isStruct := n.Underlying().(*types.Struct); isStruct && n.Obj().Pkg() == in.V.Pkg {
+				f := map[string]Val{}
+				okAll := true
+				for i, el := range x.Elts {
+					name, val := "", ast.Expr(nil)
+					if kv, ok := el.(*ast.KeyValueExpr); ok {
+						name, val = in.exprText(kv.Key), kv.Value
+					} else if i < st.NumFields() {
+						name, val = st.Field(i).Name(), el
+					}
+					if val == nil {
+						okAll = false
+						continue
+					}
+					if c, isCall := val.(*ast.CallExpr); isCall && r.effectful(c) {
+						outs := r.call(s, c)
+						if len(outs) == 1 && outs[0].s == s && len(outs[0].res) >= 1 {
+							f[name] = outs[0].res[0]
+						} else {
+							s.undecided("effectful call %s in a struct literal", in.exprText(c))
+							okAll = false
+						}
+						continue
+					}
+					f[name] = r.eval(s, val)
+				}
+				if okAll {
+					return Val{K: "tuple", A: "struct:" + n.Obj().Name(), F: f}
+				}
+				return Unk(in.exprText(x))
+			}
+		}
 		for _, el := range x.Elts {
 			if kv, ok := el.(*ast.KeyValueExpr); ok {
 				r.eval(s, kv.Value)
